@@ -346,3 +346,47 @@ func VerifSessionCSeqEcho() {
 	symapi.Assert(rs[0].Header.Get(FieldCSeq) == cseq, "response-echoes-cseq")
 	symapi.Reach("end")
 }
+
+// VerifTransportRanges (C12: "valid and invalid transports"): every spelling of a range
+// parameter - "a-b", "a", "a-", "-b", "-", "" with symbolic digits, optional blanks - is
+// parsed without a panic; a lower bound is required, a missing upper bound stays unset.
+func VerifTransportRanges() {
+	key := []string{"interleaved", "client_port", "server_port", "port"}[symapi.Choose("param", 4)]
+	a := symapi.Byte("a")
+	b := symapi.Byte("b")
+	symapi.Assume(a >= '0' && a <= '9' && b >= '0' && b <= '9')
+	as, bs := string([]byte{a}), string([]byte{b})
+	form := symapi.Choose("form", 7)
+	v := []string{as + "-" + bs, as, as + "-", "-" + bs, "-", "", " " + as + " - " + bs + " "}[form]
+	proto := []string{"RTP/AVP/TCP;unicast", "RTP/AVP;unicast"}[symapi.Choose("proto", 2)]
+	var t RTPTransport
+	for i := range t.Channels {
+		t.Channels[i], t.ClientPorts[i], t.ServerPorts[i], t.Ports[i] = -1, -1, -1, -1
+	}
+	err := t.ParseTransport(int(ChannelVideo), proto+";"+key+"="+v)
+	hasLow := form == 0 || form == 1 || form == 2 || form == 6
+	hasHigh := form == 0 || form == 3 || form == 6
+	symapi.Assert((err == nil) == hasLow, "range-needs-its-lower-bound")
+	var lo, hi int
+	switch key {
+	case "interleaved":
+		lo, hi = t.Channels[0], t.Channels[1]
+	case "client_port":
+		lo, hi = t.ClientPorts[0], t.ClientPorts[1]
+	case "server_port":
+		lo, hi = t.ServerPorts[0], t.ServerPorts[1]
+	case "port":
+		lo, hi = t.Ports[0], t.Ports[1]
+	}
+	if hasLow {
+		symapi.Assert(lo == int(a-'0'), "lower-bound-as-written")
+	} else {
+		symapi.Assert(lo == -1, "missing-lower-bound-unset")
+	}
+	if hasHigh {
+		symapi.Assert(hi == int(b-'0'), "upper-bound-as-written")
+	} else {
+		symapi.Assert(hi == -1, "missing-upper-bound-unset")
+	}
+	symapi.Reach("end")
+}
